@@ -14,8 +14,10 @@
     ordered entry list matters here).
   * `qstrreplace("sn", …)` is modelled as the left-to-right, non-overlapping replacement its
     loop performs (C19 owns that function).
-  * OUT OF MODEL: `qconfig_parse_file` (`@INCLUDE` splice + `qfile_load`); the correspondence
-    drives `qconfig_parse_str` only.
+  * `qconfig_parse_file`: the file system is the parameter `fs : path → Option content`
+    (`qfile_load`; the harness wraps `open` so that the library sees exactly the files of the
+    operation line); the `@INCLUDE` directive lines are spliced one by one, at most
+    `_MAX_INCLUDES` of them (current source, after the `fix:` commits).
 -/
 import QlibcModel.Base.Fault
 import QlibcModel.Str.Spec
@@ -184,6 +186,81 @@ def parseLoop (w : World) (sep : UInt8) : (fuel : Nat) → (rest : Bytes) → (s
 /-- `qconfig_parse_str(NULL, str, sepchar)` for `str ≠ NULL`, `sepchar ≠ '\0'` -/
 def parseStr (w : World) (sep : UInt8) (str : Bytes) : Except Fault Table :=
   parseLoop w sep (str.length + 1) str none []
+
+/-! ### `qconfig_parse_file`: the `@INCLUDE` splice -/
+
+/-- `_INCLUDE_DIRECTIVE` = "@INCLUDE " -/
+def directive : Bytes := [64, 73, 78, 67, 76, 85, 68, 69, 32]
+
+/-- the `while ((strp = strstr(strp, "@INCLUDE ")) != NULL)` search up to the first occurrence
+    that stands at the beginning of a line (`strp == str || strp[-1] == '\n'`; occurrences elsewhere
+    are stepped over): the text before it (reversed accumulator `pre`) and the text behind the
+    directive. `atStart` = the cursor is at the beginning of a line. -/
+def findInclude : (s : Bytes) → (atStart : Bool) → (pre : Bytes) → Option (Bytes × Bytes)
+  | [], _, _ => none
+  | c :: r, atStart, pre =>
+    if atStart && directive.isPrefixOf (c :: r) then some (pre.reverse, (c :: r).drop directive.length)
+    else findInclude r (c == 10) (c :: pre)
+
+/-- `dirname(3)` as used by `qfile_get_dir` (paths without NUL) -/
+def dirname (p : Bytes) : Bytes :=
+  let strip (x : Bytes) : Bytes := (x.reverse.dropWhile (· == 47)).reverse
+  if p = [] then [46]
+  else
+    let q := strip p
+    if q = [] then [47]                                   -- only slashes
+    else if !q.contains 47 then [46]                      -- no directory part
+    else
+      let d := strip ((q.reverse.dropWhile (· != 47)).reverse)
+      if d = [] then [47] else d
+
+/-- the include loop. `head` = text already scanned (before `strp`), `rest` = text from `strp`
+    on (always the beginning of a line), `left` = `_MAX_INCLUDES − includes`.
+    `none` = the function returns NULL. -/
+def includeLoop (fs : Bytes → Option Bytes) (dir : Bytes) : (left : Nat) → (head rest : Bytes) → Option Bytes
+  | left, head, rest =>
+    match findInclude rest true [] with
+    | none => some (head ++ rest)
+    | some (pre, after) =>
+      match left with
+      | 0 => none                                          -- ++includes > _MAX_INCLUDES : ELOOP
+      | left' + 1 =>
+        let raw := after.takeWhile (· != 10)               -- text up to the end of the line
+        let tail := after.drop raw.length
+        if raw.length ≥ pathMax then none
+        else
+          let buf := Str.trim raw
+          let full : Option Bytes :=
+            if buf.head? == some 47 || buf.head? == some 92 then some buf       -- absolute
+            else if dir.length + 1 + buf.length ≥ pathMax then none
+            else some (dir ++ [47] ++ buf)
+          match full with
+          | none => none
+          | some path =>
+            if path = [] then none
+            else match fs path with
+              | none => none                               -- qfile_load failed
+              | some data =>
+                includeLoop fs dir left' (head ++ pre) (data.takeWhile (· != 0) ++ tail)
+
+/-- `qconfig_parse_file(NULL, filepath, sepchar)`: `none` = NULL -/
+def parseFile (w : World) (fs : Bytes → Option Bytes) (sep : UInt8) (filepath : Bytes) :
+    Except Fault (Option Table) :=
+  match fs filepath with
+  | none => .ok none
+  | some data =>
+    match includeLoop fs (dirname filepath) maxIncludes [] (data.takeWhile (· != 0)) with
+    | none => .ok none
+    | some str =>
+      match parseStr w sep str with
+      | .error f => .error f
+      | .ok t => .ok (some t)
+
+/-- the file system of the harness: the `(path, content)` pairs of the operation line, first match -/
+def fsLookup (files : List (Bytes × Bytes)) (path : Bytes) : Option Bytes :=
+  match files.find? (fun e => e.1 == path) with
+  | some e => some e.2
+  | none => none
 
 /-! ### the world the harness provides -/
 
